@@ -142,7 +142,8 @@ def run(F, rep):
         first = [c for c in g.walk() if c.get('k') == 'Call' and c.get('mc') and c.get('fn') in ('reset', 'addOriginCommentCode')]
         if not first:
             raise AnalysisBroken('Generator::%s: emission start not found' % nm)
-        rc = ff(g).rendered_conds_at(first[0]) or set()
+        from engines import facts_x
+        rc = facts_x(F, g, first[0])
         need = [('mPimpl->mModel == nullptr', False), ('mPimpl->mProfile == nullptr', False), ('mPimpl->mModel->isValid()', True)]
         miss = [x for x in need if x not in rc]
         rep.check(not miss, 'C17.G1', nm, g.where(first[0]), 'code emission starts without the gate conditions %s' % miss, 'gated')
